@@ -198,10 +198,11 @@ def model_check_machine(chk: Check, thorough: bool) -> None:
     """TotalDecoder: the operational decoder machine on every byte string up to a bound; the three
     non-vacuity probes must each be violated."""
     cfg = "MC_CodecMachine_thorough.cfg" if thorough else "MC_CodecMachine_quick.cfg"
-    res = tlc.run_tlc("MC_CodecMachine", cfg=cfg, workers=16, timeout=4 * 3600, xmx="16g", coverage=True)
+    # no -coverage here: TLC's coverage instrumentation of the recursive strict decoder in the invariants turns
+    # 9 s into more than 15 min (measured); the three probes below are this model's non-vacuity evidence
+    res = tlc.run_tlc("MC_CodecMachine", cfg=cfg, workers=16, timeout=4 * 3600, xmx="16g")
     if not tlc.tlc_ok(res):
         raise Machinery(f"MC_CodecMachine/{cfg} failed:\n{res['out'][-2500:]}")
-    tlc.require_actions(res, ["Step", "Return"], f"MC_CodecMachine/{cfg}")
     chk.add_tlc(f"MC_CodecMachine/{cfg}", res)
     for probe in ("NeverReturns", "NeverSkipsUnknownTag", "NeverLenient"):
         r = tlc.run_tlc("MC_CodecMachine", cfg=f"MC_CodecMachine_probe_{probe}.cfg", workers=8, timeout=3000, xmx="8g")
